@@ -101,11 +101,46 @@ impl Part for AttrPlacement {
             attrs.push(if t.chance(1, 4) { Attr::wrapped(vec![Instr::Trait(TraitInstr { name, ty, hint: None, err: if fallible { Some("E".into()) } else { None }, params })]) } else { Attr::bare(Instr::Trait(TraitInstr { name, ty, hint: None, err: if fallible { Some("E".into()) } else { None }, params })) });
             wants.push(w);
         }
-        let body = if is_enum {
-            Body::Enum(vec![VariantDef { attrs: vec![], name: "V0".into(), shape: Shape::Unit, fields: vec![] }, VariantDef { attrs: vec![Attr::bare(Instr::Ghost { name: "ghost".into(), ded: None, action: None })], name: "G".into(), shape: Shape::Unit, fields: vec![] }])
-        } else {
-            Body::Struct(Shape::Named, vec![FieldDef { attrs: vec![], name: Some("a".into()), ty: "i32".into() }])
+        let body_kind = if is_enum { 0 } else { 1 + t.weighted(&[3, 2, 2]) };
+        let body = match body_kind {
+            0 => Body::Enum(vec![VariantDef { attrs: vec![], name: "V0".into(), shape: Shape::Unit, fields: vec![] }, VariantDef { attrs: vec![Attr::bare(Instr::Ghost { name: "ghost".into(), ded: None, action: None })], name: "G".into(), shape: Shape::Unit, fields: vec![] }]),
+            1 => Body::Struct(Shape::Named, vec![FieldDef { attrs: vec![], name: Some("a".into()), ty: "i32".into() }]),
+            2 => {
+                // a bare #[parent] member switches Into / IntoExisting to the post-init body: the attributes must still be there
+                labels.push("bare-parent-member".into());
+                Body::Struct(Shape::Named, vec![FieldDef { attrs: vec![], name: Some("a".into()), ty: "i32".into() }, FieldDef { attrs: vec![Attr::bare(Instr::Parent { ded: None, fields: None })], name: Some("p".into()), ty: "P".into() }])
+            }
+            _ => {
+                // tuple struct facing `as {}`: instructions that carry `return expr` need no member names (the body is replaced)
+                labels.push("tuple-as-struct-with-return".into());
+                for a in attrs.iter_mut() {
+                    if let Some(ins) = a.instrs_mut() {
+                        for i in ins.iter_mut() {
+                            if let Instr::Trait(tr) = i {
+                                if tr.params.iter().any(|p| matches!(p, TParam::Return(_))) {
+                                    tr.hint = Some(Hint::Struct);
+                                } else {
+                                    tr.params.retain(|p| !matches!(p, TParam::Update(_)));
+                                }
+                            }
+                        }
+                    }
+                }
+                Body::Struct(Shape::Tuple, vec![FieldDef { attrs: vec![], name: None, ty: "i32".into() }, FieldDef { attrs: vec![], name: None, ty: "i32".into() }])
+            }
         };
+        if body_kind == 2 {
+            // ..update has no meaning in the post-init body (open finding of C17/C08): keep to the attribute parameters
+            for a in attrs.iter_mut() {
+                if let Some(ins) = a.instrs_mut() {
+                    for i in ins.iter_mut() {
+                        if let Instr::Trait(tr) = i {
+                            tr.params.retain(|p| !matches!(p, TParam::Update(_) | TParam::Vars(_)));
+                        }
+                    }
+                }
+            }
+        }
         let item = Item { attrs, name: "S".into(), generics: String::new(), where_clause: String::new(), body };
         let text = item.render();
         let di = match parse_input(&text) {
